@@ -665,6 +665,22 @@ func twoConnsPhase(ctx *Ctx, n int, _ []stmtKind) {
 		}
 		time.Sleep(700 * time.Millisecond)
 	}
+	// the same with an IDLE connection lost (no request on it): first the one opened first, then -- once the pool has healed
+	// -- the other original one, so that each slot of the pool has been the empty one
+	for h := 1; h <= n; h++ {
+		for pass := 0; pass < 2; pass++ {
+			e.advanceTo(h)
+			if !e.be.DropOldestConn(h) {
+				continue
+			}
+			start := time.Now()
+			time.Sleep(30 * time.Millisecond)
+			for i := 0; i < 2*n && time.Since(start) < 300*time.Millisecond; i++ {
+				e.scenario(kinds[i%2], nil, "two-conns-idle-one-lost")
+			}
+			time.Sleep(700 * time.Millisecond)
+		}
+	}
 }
 
 // saturationPhase: one host keeps 2048 requests pending on its only connection, so sends to
